@@ -515,6 +515,8 @@ func runC10(cfg *vh.Config) error {
 				if c.Kind == kSchema {
 					if got.Nil {
 						os = append(os, "ORes RNil 0")
+					} else if strings.HasPrefix(got.Err, "unlinked ref") {
+						os = append(os, "ORes RUnlinked 0")
 					} else if got.failed() {
 						os = append(os, "ORes RErr 0")
 					} else {
